@@ -1821,6 +1821,60 @@ class _SuppressToTry(ast.NodeTransformer):
         return node
 
 
+class _HoistChained(ast.NodeTransformer):
+    """`self._pick(x).method(...)` inside a simple statement -> `_hc = self._pick(x)` before it, `_hc.method(...)` in place (the rules
+    read the object picked at run time from a local).  Only when nothing else with an effect is evaluated before the hoisted call:
+    every other call of the statement contains it, and it is not under a conditional / lazy construct."""
+
+    def __init__(self):
+        self.n = 0
+
+    def generic_visit(self, node):
+        super().generic_visit(node)
+        if isinstance(node, (ast.stmt, ast.Module, ast.ExceptHandler)):
+            for field in ("body", "orelse", "finalbody"):
+                b = getattr(node, field, None)
+                if isinstance(b, list) and b and isinstance(b[0], ast.stmt):
+                    setattr(node, field, [y for st in b for y in self._stmt(st)])
+        return node
+
+    def _stmt(self, st):
+        if not isinstance(st, (ast.Assign, ast.Return, ast.Expr, ast.AugAssign, ast.AnnAssign)) or getattr(st, "value", None) is None:
+            return [st]
+        parent = {}
+        for x in ast.walk(st.value):
+            for c in ast.iter_child_nodes(x):
+                parent[id(c)] = x
+        for x in ast.walk(st.value):
+            if not (isinstance(x, ast.Call) and isinstance(x.func, ast.Attribute) and isinstance(x.func.value, ast.Call)):
+                continue
+            inner = x.func.value
+            d = _dotted(inner.func) or ""
+            if not (d.startswith("self._") and d.count(".") == 1):
+                continue
+            anc, lazy = set(), False
+            y = inner
+            while id(y) in parent:
+                y = parent[id(y)]
+                anc.add(id(y))
+                if isinstance(y, (ast.BoolOp, ast.IfExp, ast.Lambda, ast.GeneratorExp, ast.ListComp, ast.SetComp, ast.DictComp)):
+                    lazy = True
+            if isinstance(parent.get(id(inner)), ast.Await) or lazy:
+                continue
+            mine = {id(z) for z in ast.walk(inner)}
+            others = [z for z in ast.walk(st.value) if isinstance(z, (ast.Call, ast.Await, ast.NamedExpr, ast.Yield, ast.YieldFrom)) and id(z) not in mine]
+            if any(id(z) not in anc for z in others):
+                continue
+            self.n += 1
+            t = f"_hc{self.n}"
+            a = ast.Assign(targets=[ast.Name(id=t, ctx=ast.Store())], value=inner)
+            ast.copy_location(a, st)
+            x.func.value = ast.copy_location(ast.Name(id=t, ctx=ast.Load()), inner)
+            ast.fix_missing_locations(a)
+            return [a] + self._stmt(st)
+        return [st]
+
+
 class _OrDefault(ast.NodeTransformer):
     """`return C(...) or D`  ->  `t = C(...)`, `if t: return t`, `return D`;  `x = C(...) or D`  ->  `x = C(...)`, `if not x: x = D`
     (exactly what `or` means; the if-form is the one the rules read)."""
@@ -1840,8 +1894,38 @@ class _OrDefault(ast.NodeTransformer):
             self._blocks(node)
         return node
 
+    def _hoist_ifexp_args(self, st):
+        """`await f(a, p=X if c else Y)` -> `_ifx = X if c else Y`, `await f(a, p=_ifx)` when the conditional expression is call-free
+        (it only selects between names / constants, so evaluating it before the other arguments changes nothing)."""
+        v = getattr(st, "value", None)
+        if not isinstance(st, (ast.Expr, ast.Assign, ast.Return)) or v is None:
+            return []
+        call = v.value if isinstance(v, ast.Await) else v
+        if not isinstance(call, ast.Call):
+            return []
+        pre = []
+        def pure(e):
+            return not any(isinstance(x, (ast.Call, ast.Await, ast.NamedExpr, ast.Lambda, ast.Yield, ast.YieldFrom)) for x in ast.walk(e))
+        def tmp(e):
+            self.n += 1
+            t = f"_ifx{self.n}"
+            a = ast.Assign(targets=[ast.Name(id=t, ctx=ast.Store())], value=e)
+            ast.copy_location(a, st)
+            pre.append(a)
+            return ast.copy_location(ast.Name(id=t, ctx=ast.Load()), e)
+        for i, a in enumerate(call.args):
+            if isinstance(a, ast.IfExp) and pure(a):
+                call.args[i] = tmp(a)
+        for k in call.keywords:
+            if isinstance(k.value, ast.IfExp) and pure(k.value):
+                k.value = tmp(k.value)
+        for a in pre:
+            ast.fix_missing_locations(a)
+        return pre
+
     def _block(self, stmts):
         out = []
+        stmts = [y for st in stmts for y in (self._hoist_ifexp_args(st) + [st])]
         for st in stmts:
             v = getattr(st, "value", None)
             if isinstance(st, (ast.Return, ast.Assign)) and isinstance(v, ast.IfExp) and (isinstance(st, ast.Return) or (len(st.targets) == 1 and isinstance(st.targets[0], ast.Name))):
@@ -1976,6 +2060,77 @@ class _AliasFold(ast.NodeTransformer):
     visit_AsyncFunctionDef = visit_FunctionDef
 
 
+
+# ---------------------------------------------------------------------------------------------- new named constants
+def _const_expr(e) -> bool:
+    """Immutable, side-effect free expression over literals and (module-level) names."""
+    if isinstance(e, ast.Constant):
+        return True
+    if isinstance(e, ast.Name):
+        return True
+    if isinstance(e, ast.Attribute):
+        return _const_expr(e.value)
+    if isinstance(e, ast.Tuple):
+        return all(_const_expr(x) for x in e.elts)
+    if isinstance(e, ast.BinOp):
+        return _const_expr(e.left) and _const_expr(e.right)
+    if isinstance(e, ast.UnaryOp):
+        return _const_expr(e.operand)
+    if isinstance(e, ast.Subscript):
+        return _const_expr(e.value) and isinstance(e.slice, (ast.Constant, ast.UnaryOp)) and _const_expr(e.slice)
+    return False
+
+
+def _inline_new_constants(tree: ast.Module, ref: dict, notes: list) -> ast.Module:
+    """A private module-level name the reference tree does not have, bound exactly once to an immutable expression (a literal, a
+    tuple of names, arithmetic over other constants), is an *explaining constant*: its uses are replaced by the expression and
+    the definition is dropped.  Nothing is done when the name is rebound anywhere, shadowed in a scope that uses it, or when a
+    name inside its value is shadowed at a use."""
+    known = set(ref.get("names", {}))
+    for _ in range(4):
+        cands = {}
+        stores = {}
+        for x in ast.walk(tree):
+            if isinstance(x, ast.Name) and isinstance(x.ctx, (ast.Store, ast.Del)):
+                stores[x.id] = stores.get(x.id, 0) + 1
+            elif isinstance(x, (ast.Global, ast.Nonlocal)):
+                for n in x.names:
+                    stores[n] = stores.get(n, 0) + 5
+            elif isinstance(x, ast.arg):
+                stores[x.arg] = stores.get(x.arg, 0) + 5
+            elif isinstance(x, (ast.FunctionDef, ast.AsyncFunctionDef, ast.ClassDef)):
+                stores[x.name] = stores.get(x.name, 0) + 5
+            elif isinstance(x, ast.alias):
+                nm = (x.asname or x.name).split(".")[0]
+                stores[nm] = stores.get(nm, 0) + 5
+        for st in tree.body:
+            tgt = val = None
+            if isinstance(st, ast.Assign) and len(st.targets) == 1 and isinstance(st.targets[0], ast.Name):
+                tgt, val = st.targets[0].id, st.value
+            elif isinstance(st, ast.AnnAssign) and isinstance(st.target, ast.Name) and st.value is not None:
+                tgt, val = st.target.id, st.value
+            if tgt is None or not _is_private(tgt) or tgt in known or tgt.startswith("__"):
+                continue
+            if stores.get(tgt, 0) != 1 or not _const_expr(val):
+                continue
+            inner = {n.id for n in ast.walk(val) if isinstance(n, ast.Name)}
+            if tgt in inner or any(stores.get(n, 0) > 1 and n not in known for n in inner):
+                # a name of the value that is bound several times (e.g. also as a local somewhere) could be shadowed at a use
+                if any(stores.get(n, 0) > 1 for n in inner):
+                    continue
+            cands[tgt] = (st, val)
+        if not cands:
+            break
+        sub = _Subst({k: v[1] for k, v in cands.items()})
+        sub.visit_Lambda = sub.generic_visit  # candidates are never parameter names (see `stores`)
+        drop = {id(v[0]) for v in cands.values()}
+        tree.body = [st for st in tree.body if id(st) not in drop]
+        # drop a docstring-style string expression that documented a removed constant is harmless to keep
+        tree = sub.visit(tree)
+        for k in sorted(cands):
+            notes.append(f"inlined new constant {k}")
+    return tree
+
 # ---------------------------------------------------------------------------------------------- driver
 def canonicalise(tree: ast.Module, modname: str, is_package: bool = False):
     """Returns (tree, notes). notes: list of strings describing what was rewritten."""
@@ -1997,6 +2152,7 @@ def canonicalise(tree: ast.Module, modname: str, is_package: bool = False):
             for a, b in ren["module"].items():
                 notes.append(f"rename {a} -> {b}")
             cur = census(tree)
+        tree = _inline_new_constants(tree, ref, notes)
         # helpers unknown to the reference
         helpers = {}
         for st in tree.body:
@@ -2026,6 +2182,7 @@ def canonicalise(tree: ast.Module, modname: str, is_package: bool = False):
     tree = _SplitHandler().visit(tree)
     tree = _MatchToIf().visit(tree)
     tree = _SuppressToTry().visit(tree)
+    tree = _HoistChained().visit(tree)
     tree = _OrDefault().visit(tree)
     tree = _AliasFold().visit(tree)
     tree = _Normalise(tree).visit(tree)
